@@ -21,7 +21,10 @@ META = {
             "(combining also switched on after the peer's EOF / CLOSE), compression off / zlib@openssh.com / zlib "
             "(also crossed with the re-exchange positions), reader chunk sizes {1, 7, all}; exit statuses {0, 1, 255, 2^31}. Oracle: bytes read "
             "per channel and stream == bytes written, in order; with combining, stdout is an order-preserving merge of "
-            "both origin streams with nothing lost; recv_exit_status() == sent status. Plus [parked output] the server "
+            "both origin streams with nothing lost; recv_exit_status() == sent status. Plus [concurrent senders] two "
+            "application threads writing to two channels at once (optionally while the peer's requests make the transport "
+            "thread write replies), without / with compression (shared stream state), "
+            "every schedule within delay bound 1/2. Plus [parked output] the server "
             "application writes 1-2 stdout chunks + stderr from inside a request callback (transport thread) while "
             "a re-exchange (either initiator) is in progress and a user thread sends / shuts down / closes after "
             "the callback returned: every schedule within delay bound 1/2 of the end of the exchange; the client "
@@ -307,6 +310,106 @@ def run_race(item, acc):
     if len(acc.samples) < 5:
         acc.sample({"combine_race": {"stderr_buffered_before": rscn[0], "arriving_packets": rscn[1]},
                     "schedules": res.executions, "end_states(stdout,stderr_left)": [[a.decode(), b.decode()] for a, b in sorted(seen)]})
+
+
+# ------------------------------------------------------------------ concurrent senders on one transport
+def make_conc_body(cscn):
+    """Two application threads write to two channels of one transport at the same time (optionally with
+    compression, whose stream state is shared by everything the transport sends): every schedule within the
+    delay bound; both streams must arrive intact and the session must stay up."""
+    compress, sizes = cscn[:2]
+    peer_req = cscn[2] if len(cscn) > 2 else False
+
+    def body(s):
+        import socket
+        p = F.Pair()
+        if compress:
+            p.tc.use_compression(True)
+            p.ts.use_compression(True)
+            if compress == "zlib":
+                p.tc._preferred_compression = p.ts._preferred_compression = ("zlib", "none")
+        p.up()
+        pairs = []
+        for _ in range(2):
+            c = p.tc.open_session()
+            pairs.append((c, p.ts.accept(5)))
+        s.quiesce()
+        pay = [pat(bytes([0x61 + 2 * i, 0x62 + 2 * i, 0x30]), n) for i, n in enumerate(sizes)]
+        errs = []
+
+        def snd(i):
+            try:
+                pairs[i][1].sendall(pay[i])
+                pairs[i][1].sendall_stderr(pay[i].upper())
+            except Exception as e:  # noqa
+                errs.append("%d: %s" % (i, type(e).__name__))
+        ths = [vthreading.Thread(target=snd, args=(i,)) for i in range(2)]
+        if peer_req:
+            # the peer asks for things meanwhile, so that the sending side's *transport thread* writes replies
+            # (user threads are serialised among themselves, the transport thread is not)
+            def asker():
+                try:
+                    p.tc.global_request("keepalive@test", wait=True)
+                    p.tc.open_session(timeout=30)
+                except Exception as e:  # noqa
+                    errs.append("asker: %s" % type(e).__name__)
+            ths.append(vthreading.Thread(target=asker))
+        s.branching = True
+        for t in ths:
+            t.start()
+        for t in ths:
+            t.join()
+        s.branching = False
+        s.advance(0.3)
+        s.quiesce()
+        got = []
+        for i, (c, sv) in enumerate(pairs):
+            c.settimeout(0.5)
+            row = []
+            for fn, want in ((c.recv, pay[i]), (c.recv_stderr, pay[i].upper())):
+                buf = bytearray()
+                try:
+                    while len(buf) < len(want):
+                        d = fn(1 << 16)
+                        if not d:
+                            break
+                        buf += d
+                except socket.timeout:
+                    pass
+                row.append(bytes(buf) == want)
+            got.append(tuple(row))
+        active = (p.tc.is_active(), p.ts.is_active())
+        exc = (repr(p.tc.get_exception()), repr(p.ts.get_exception()))
+        p.close()
+        s.quiesce()
+        return got, active, errs, exc
+    return body
+
+
+def run_conc(item, acc):
+    tier, cscn, bound = item
+    body = make_conc_body(cscn)
+
+    def on_exec(ex):
+        acc.ev()
+        if ex.outcome != "ok":
+            acc.violation("concurrent-senders:%s:%s" % (ex.outcome, type(ex.error).__name__),
+                          {"scn": cscn, "err": repr(ex.error)[:300]}, {"conc": cscn, "choices": ex.choices})
+            return
+        got, active, errs, exc = ex.value
+        acc.nt(("conc", cscn, tuple(ex.choices)))
+        if not all(active) or errs:
+            acc.violation("concurrent-senders:session-dies" + (":compressed" if cscn[0] else ""),
+                          {"scn": cscn, "active": active, "errors": errs, "exceptions": exc, "choices": ex.choices},
+                          {"conc": cscn, "choices": ex.choices})
+        elif not all(all(r) for r in got):
+            acc.violation("concurrent-senders:stream-differs" + (":compressed" if cscn[0] else ""),
+                          {"scn": cscn, "streams_intact(channel -> stdout, stderr)": got, "choices": ex.choices},
+                          {"conc": cscn, "choices": ex.choices})
+    res = explore.explore(body, bound, "delay", cap=3000, on_exec=on_exec, sched_kw={"horizon": S.EPOCH + 300})
+    acc.count("concurrent_sender_schedules", res.executions)
+    if res.capped:
+        acc.note("cap 3000 hit (concurrent senders) %r" % (cscn,))
 
 
 # ------------------------------------------------------------------ data written on the transport thread during a re-exchange
@@ -627,6 +730,9 @@ def main(tier):
     ck.merge(core.pmap(races, run_race))
     reopen = [(tier, (d, k, n)) for d in (True, False) for k in ("data", "ext", "data+close") for n in (1, 2)]
     ck.merge(core.pmap(reopen, run_reopen))
+    conc = [(tier, (comp, sizes, pr), 1 if tier == "quick" else 2) for comp in (False, True, "zlib")
+            for sizes in (((5, 70),) if tier == "quick" else ((5, 70), (300, 300))) for pr in (False, True)]
+    ck.merge(core.pmap(conc, run_conc))
     parked = [(tier, (n, uop, ini), 1 if tier == "quick" else 2) for n in (1, 2)
               for uop in ("send", "close", "shutdown_write") for ini in ("s", "c")]
     ck.merge(core.pmap(parked, run_parked))
@@ -637,6 +743,14 @@ def main(tier):
 
 def replay(rec):
     r = rec["replay"]
+    if "conc" in r:
+        c = r["conc"]
+        ex = explore.replay(make_conc_body((c[0], tuple(c[1])) + tuple(c[2:])), r["choices"], "delay", {"horizon": S.EPOCH + 300})
+        print(ex.outcome, ex.error, ex.value)
+        if ex.outcome != "ok":
+            return 1
+        got, active, errs, exc = ex.value
+        return 1 if (not all(active) or errs or not all(all(x) for x in got)) else 0
     if "parked" in r:
         ex = explore.replay(make_parked_body(tuple(r["parked"])), r["choices"], "delay", {"horizon": S.EPOCH + 300})
         print(ex.outcome, ex.error, ex.value)
